@@ -54,7 +54,8 @@ def run_shard(shard, ctx):
                      "gzip-member-boundary-in-header", "payload-is-tar-512", "payload-is-tar-4096", "payload-is-vmtar",
                      "payload-is-tar-gz", "tar-with-leftover-blocks", "vmtar-with-leftover-blocks",
                      "pax-x-path", "pax-x-size", "pax-X-path", "pax-X-size", "pax-g-comment", "pax-x-before-ustar",
-                     "pax-x-before-dir-after-file", "links-visor", "links-ustar", "links-mixed"):
+                     "pax-x-before-dir-after-file", "links-visor", "links-ustar", "links-mixed", "regular-typeflags",
+                     "relinked-visor", "relinked-ustar"):
             run_case({"special": what}, ctx)
         return
     if shard.get("high"):
@@ -143,6 +144,54 @@ def _case_special(case, ctx):
                     byname = (t.extractfile("d/same").read(), t.extractfile(t.getmember("d/same")).read())
                     if byname != (members[3][2], members[3][2]):
                         got = got + [("by-name(d/same)", False, byname[0][:10])]
+            elif what == "regular-typeflags":
+                # every typeflag that denotes a regular file ('0', NUL, '7' contiguous) as visor members with out-of-line data,
+                # followed by further members
+                flags = [b"0", b"\0", b"7", b"0", b"7"]
+                datas = [bytes([65 + i]) * (513 + 100 * i) for i in range(len(flags))]
+                heads = bytearray()
+                data0 = 8192
+                area = bytearray()
+                for i, (fl, dat) in enumerate(zip(flags, datas)):
+                    heads += B.hdr(f"etc/f{i}", len(dat), typ=fl, offset_data=data0 + len(area))
+                    area += dat.ljust((len(dat) + 4095) // 4096 * 4096, b"\xEE")
+                heads += b"\0" * 1024
+                img = bytes(heads).ljust(data0, b"\0") + bytes(area)
+                exp = [(f"etc/f{i}", False, d) for i, d in enumerate(datas)]
+                got = _listing(vmtar.open(fileobj=io.BytesIO(img)))
+            elif what.startswith("relinked-"):
+                # the same hard-link entry stored twice with byte-identical headers, a newer copy of its target in between: a
+                # link resolves to the last target stored before it (what the standard reader does)
+                vis = what.endswith("visor")
+                v1, v2 = b"tool version 1\n" * 40, b"tool version 2\n" * 41
+                heads = bytearray()
+                data0 = 8192
+
+                def filehdr(name, dat, off):
+                    return B.hdr(name, len(dat), offset_data=off) if vis else B.hdr(name, len(dat), visor=False) + B.pad512(dat)
+
+                def linkhdr(name, to):
+                    h = bytearray(B.hdr(name, 0, typ=b"1", visor=vis))
+                    h[157:157 + len(to)] = to.encode()
+                    h[148:156] = b" " * 8
+                    h[148:156] = b"%06o\0 " % sum(h)
+                    return bytes(h)
+
+                heads += filehdr("bin/tool", v1, data0) + linkhdr("bin/alias", "bin/tool") + filehdr("bin/tool", v2, data0 + 4096)
+                heads += linkhdr("bin/alias", "bin/tool") + b"\0" * 1024
+                img = bytes(heads)
+                if vis:
+                    img = img.ljust(data0, b"\0") + v1.ljust(4096, b"\xEE") + v2
+                t = vmtar.open(fileobj=io.BytesIO(img))
+                ms = t.getmembers()
+                got = [(m.name, m.islnk(), t.extractfile(m).read()) for m in ms] + [("by-name", t.extractfile("bin/alias").read())]
+                exp = [("bin/tool", False, v1), ("bin/alias", True, v1), ("bin/tool", False, v2), ("bin/alias", True, v2), ("by-name", v2)]
+                if not vis:
+                    ref = tarfile.open(fileobj=io.BytesIO(img))
+                    rm = ref.getmembers()
+                    refl = [(m.name, m.islnk(), ref.extractfile(m).read()) for m in rm] + [("by-name", ref.extractfile("bin/alias").read())]
+                    if refl != exp:
+                        raise AssertionError(f"harness: the standard reader disagrees with the expectation: {refl!r}"[:300])
             elif what.startswith("links-"):
                 # symbolic and hard links next to the files they name: listed with their type and link name; extractfile()
                 # of a link yields the bytes of the member it points to (as the standard reader does)
